@@ -101,11 +101,19 @@ class Reader:
 
 
 def dialect_encoder_pairings(repo):
-    """(encoder class, grammar class, decoder class) of every row of pvl_validate.dialects (AST)."""
-    mod = repo.modules.get("pvl_validate")
+    """(encoder class, grammar class, decoder class) of the encoder object in every row of pvl_validate.dialects, as the
+    module builds it (vsa.ctor.module_value)."""
+    from . import ctor
     out = []
-    if mod is None or "dialects" not in mod.assigns:
+    if "pvl_validate" not in repo.modules:
         return out
+    d = ctor.module_value(repo, "pvl_validate", "dialects")
+    if isinstance(d, ctor.DictV):
+        for _rname, row in d.items:
+            e = row.get("encoder") if isinstance(row, ctor.DictV) else None
+            if isinstance(e, ctor.Inst) and isinstance(e.attrs.get("grammar"), ctor.Inst) and isinstance(e.attrs.get("decoder"), ctor.Inst):
+                out.append((e.cls, e.attrs["grammar"].cls, e.attrs["decoder"].cls))
+    return out
     inst = {}
     for name, val in mod.assigns.items():
         if isinstance(val, ast.Call) and isinstance(val.func, ast.Name) and repo.has_cls(val.func.id):
